@@ -7,3 +7,4 @@
 #define HAVE_C06 1
 #define HAVE_C15 1
 #define HAVE_C09 1
+#define HAVE_C16 1
